@@ -88,7 +88,9 @@ GRAMMARS = [
     ('recursive', 'R',
      {'all': {150: 'store'}, 'fold': {150: 'fold'}},
      {'cap': 7, 'maxch': 1, 'maxd': 3, 'maxn': 4, 'N': 2, 'K': 2, 'defs': {'R': (150, 'sor< seq< sym<0>, R >, sym<1> >')}, 'maxrec': 3, 'mem_gb': 6,
-      'reach': [('e.r == 1 && ts_n == 3', 'recursive rule nested three levels'), ('e.r == 0', 'no tree')]}),
+      'reach': [('e.r == 0', 'no tree')],
+      'reach_tag': {'all': [('e.r == 1 && ts_n == 3', 'recursive rule nested three levels')],
+                    'fold': [('e.r == 1 && ts_n == 1 && T_res[0][sp_start] == 1 && T_res[0][T_np[0][sp_start]] == 1', 'three nested matches of the recursive rule folded into one node')]}}),
     ('default', 'sor< seq< %s, %s >, %s >' % (S0, S1, S2),
      {'store_all': 'all'},
      {'cap': 4, 'maxch': 2, 'maxd': 3, 'maxn': 5,
@@ -130,7 +132,7 @@ def plan(ctx):
             action = o.get('action')
             defs = o.get('defs')
             htext, gen = treegen.harness_text(gtext, sel, doc, n, K, maxch, maxd, maxn, defs=defs, maxrec=o.get('maxrec', 3), maxres=o.get('maxres', 3),
-                                              action=action, reach=o.get('reach', []), lookahead=o.get('lookahead', False))
+                                              action=action, reach=o.get('reach', []) + o.get('reach_tag', {}).get(tag, []), lookahead=o.get('lookahead', False))
             if sel == 'all':
                 wtext = treegen.wrapper_text_all(gtext, gen, maxch, maxd)
             else:
@@ -139,9 +141,21 @@ def plan(ctx):
             h = ctx.write('h_%s_%s.c' % (gname, tag), htext)
             total = sum(maxch ** (k + 1) for k in range(maxd))
             big = total + 10
+            rec = []
+            if defs:
+                # recursive grammar rule: the recursion of match< R, ... > is unfolded maxrec times (the reference excludes deeper nesting,
+                # the recursion unwinding assertion proves that the real run does not nest deeper either); the uniform --unwind bound would
+                # unfold it as often as the longest container loop.  The mangled name is read from the translated unit.
+                try:
+                    b = vf.build_unit(ctx, unit)
+                    for name in defs:
+                        pre = '_ZN3tao5pegtl5matchI%d%sL' % (len(name), name)
+                        rec += ['%s:%d' % (f, o.get('maxrec', 3)) for f in b['defined'] if f.startswith(pre)]
+                except vf.Inconclusive:
+                    pass      # reported by the query itself
             for mode in ['tree'] + (['stack'] if tag in o.get('stack', []) else []):
                 qs.append(vf.Query('%s/%s/%s' % (gname, tag, mode), unit, h, unwind=max(n + 3, cap + 2, maxn + 2, maxch + 2, maxd + 3), mem_gb=o.get('mem_gb', 4),
-                                   unwindset=['c12_setup.1:9', 'c12_clear.0:%d' % big, 'c12_obs.0:%d' % big, 'c12_structure.0:%d' % big],
+                                   unwindset=['c12_setup.1:9', 'c12_clear.0:%d' % big, 'c12_obs.0:%d' % big, 'c12_structure.0:%d' % big] + rec,
                                    cbmc_defines={'VF_SPLIT': 1, 'V_' + mode: 1},
                                    bounds={'N': n, 'K': K, 'grammar': gtext, 'selector': sel if sel == 'all' else {str(k): v for k, v in sel.items()},
                                            'vector_capacity': cap, 'max_children': maxch, 'max_depth': maxd, 'max_nodes': maxn, 'checked': mode,
